@@ -94,7 +94,9 @@ fn apply_patch_with_data(
             let new_byte = apply_diff_byte(old_byte, diff_byte);
 
             output.push(new_byte);
-            old_pos += 1;
+            // Seeks saturate, so the position can sit at usize::MAX;
+            // positions past EOF read as zero.
+            old_pos = old_pos.saturating_add(1);
         }
 
         // Copy extra block
@@ -280,7 +282,9 @@ impl<R: Read + Seek> ZbsdiffPatcher<R> {
                 output.push(apply_diff_byte(*old_byte, *diff_byte));
             }
 
-            *old_pos += chunk_size;
+            // Seeks saturate, so the position can sit at usize::MAX;
+            // positions past EOF read as zero.
+            *old_pos = old_pos.saturating_add(chunk_size);
             remaining -= chunk_size;
         }
 
